@@ -100,6 +100,10 @@ func (t *textScannerLexer) Next() (Token, error) {
 	typ := t.scanner.Scan()
 	text := t.scanner.TokenText()
 	pos := Position(t.scanner.Position)
+	if pos.Line == 0 {
+		// text/scanner has no position for the end of an empty input: it is the start of line 1.
+		pos.Line, pos.Column = 1, 1
+	}
 	pos.Filename = t.filename
 	if t.err != nil {
 		return Token{}, t.err
